@@ -150,7 +150,11 @@ def random_case(rng, tier):
             action['t'] = round(rng.uniform(0, horizon) * 4) / 4
             schedule.append(action)
     elif flavour == 'subtimeout':
-        opts['subscribe_timeouts'] = rng.choice([['rpc'], ['broadcast'], ['rpc', 'broadcast']])
+        if rng.random() < 0.5:
+            opts['subscribe_timeouts'] = rng.choice([['rpc'], ['broadcast'], ['rpc', 'broadcast']])
+        else:
+            # the clean-up of one subscription times out when the process closes: the other one is removed all the same
+            opts['unsubscribe_timeouts'] = rng.choice([['rpc'], ['broadcast']])
     case_fault = None
     if flavour in ('quiescent', 'timed') and rng.random() < 0.12:
         # a pause / play hook of the process raises: the error goes to whoever asked - the direct caller as an exception,
@@ -514,9 +518,13 @@ def _oracle_single(case, engine, proc, communicator, data, result, late_reply, c
 
     # -- after termination ----------------------------------------------------------------------------------
     if proc.has_terminated():
-        if str(pid) in communicator._rpc_subscribers or str(pid) in communicator._broadcast_subscribers:
-            result.violate('still_subscribed', proc.state.value, 'a terminated process is still subscribed under its pid')
-        if late_reply is not None:
+        failed_removals = set(case['opts'].get('unsubscribe_timeouts') or [])
+        left = [kind for kind, table in (('rpc', communicator._rpc_subscribers), ('broadcast', communicator._broadcast_subscribers))
+                if str(pid) in table and kind not in failed_removals]
+        if left:
+            result.violate('still_subscribed', proc.state.value, f'a terminated process is still subscribed under its pid: {left}'
+                                                                 f' (removals that were made to fail: {sorted(failed_removals)})')
+        if late_reply is not None and not failed_removals:
             result.counters['probe:late_message'] += 1
             if len(calls) != calls_before_late:
                 result.violate('late_message_handled', 'call', f'a message sent after termination reached '
@@ -525,8 +533,10 @@ def _oracle_single(case, engine, proc, communicator, data, result, late_reply, c
             if outcome[0] != 'exception' or outcome[1] != 'UnroutableError':
                 result.violate('late_message_handled', 'reply', f'an RPC to a terminated process was answered with {outcome!r}')
     if flavour == 'subtimeout':
-        if communicator.subscribe_timeouts_fired == 0:
+        if communicator.subscribe_timeouts_fired == 0 and not case['opts'].get('unsubscribe_timeouts'):
             raise RuntimeError('subscribe timeout was not injected')
+        if case['opts'].get('unsubscribe_timeouts'):
+            result.counters['unsubscribe_timeouts_fired'] += communicator.unsubscribe_timeouts_fired
         reference = common.reference_run(case['program'])
         if common.outcome(proc) != reference['outcome'] and data['drive'] == 'terminated':
             result.violate('subscribe_timeout', 'outcome', f'with a timed-out registration the process ended '
